@@ -71,8 +71,8 @@ fn gal_nodes(ns: &[Node]) -> String {
     let parts: Vec<String> = ns
         .iter()
         .map(|n| match n {
-            Node::Text(i) => format!("Text {i}"),
-            Node::Block(b, body) => format!("BlockDef {b} {}", gal_nodes(body)),
+            Node::Text(i) => format!("Text {i}%N"),
+            Node::Block(b, body) => format!("BlockDef {b}%N {}", gal_nodes(body)),
             Node::Super => "Super".to_string(),
             Node::Cap(f, body) => {
                 format!("FilterSection {} {}", if *f { "KFilter" } else { "KSet" }, gal_nodes(body))
@@ -84,10 +84,10 @@ fn gal_nodes(ns: &[Node]) -> String {
 
 fn gal_tpl(t: &Tpl) -> String {
     format!(
-        "{{| t_name := {}; t_extends := {}; t_body := {} |}}",
+        "{{| t_name := {}%N; t_extends := {}; t_body := {} |}}",
         t.name,
         match t.extends {
-            Some(p) => format!("Some {p}"),
+            Some(p) => format!("(Some {p}%N)"),
             None => "None".to_string(),
         },
         gal_nodes(&t.body)
@@ -171,7 +171,7 @@ impl IRes {
                 "IOk [{}]",
                 v.iter()
                     .map(|t| match t {
-                        Tok::T(i) => format!("OText {i}"),
+                        Tok::T(i) => format!("OText {i}%N"),
                         Tok::Open => "OOpen".to_string(),
                         Tok::Close => "OClose".to_string(),
                     })
@@ -685,8 +685,8 @@ fn push_set(sink: &mut Sink, meta: &mut Meta, rng: &mut Rng, st: &mut Stats, set
         "{{| sc_tpls := [{}]; sc_reg := {}; sc_renders := [{}]; sc_blocks := [{}] |}}",
         set.iter().map(gal_tpl).collect::<Vec<_>>().join("; "),
         base.reg.gal(),
-        base.renders.iter().map(|(t, r)| format!("({t}, {})", r.gal())).collect::<Vec<_>>().join("; "),
-        base.blocks.iter().map(|(t, b, r)| format!("({t}, {b}, {})", r.gal())).collect::<Vec<_>>().join("; ")
+        base.renders.iter().map(|(t, r)| format!("({t}%N, {})", r.gal())).collect::<Vec<_>>().join("; "),
+        base.blocks.iter().map(|(t, b, r)| format!("({t}%N, {b}%N, {})", r.gal())).collect::<Vec<_>>().join("; ")
     );
     let accepted = matches!(base.reg, IRes::Ok(_));
     let supers: usize = set.iter().map(|t| count_super(&t.body)).sum();
@@ -1069,7 +1069,7 @@ fn main() {
     let thorough = args.tier == "thorough";
     let mut rng = Rng::new(args.seed);
     let mut meta = Meta::default();
-    let header = "From Coq Require Import List NArith.\nFrom TeraV Require Import Model.Value Model.Lineage Corr.CorrC04.\nImport ListNotations.\nLocal Open Scope N_scope.";
+    let header = "From Coq Require Import List NArith.\nFrom TeraV Require Import Model.Value Model.Lineage Corr.CorrC04.\nImport ListNotations.";
     let mut sink = Sink::new(&args.out, "set", header, "check_set");
     let mut st = Stats { sets: 0, accepted: 0, rejected: 0, d13_sets: 0, d13_child_runs: 0, orders_checked: 0, incr_checked: 0, renders: 0, block_renders: 0, d8_shape: 0, d13_seen: 0, d13_cap: if thorough { 40 } else { 8 }, d13_skipped: 0 };
 
